@@ -9,7 +9,7 @@ impls of `src/rpm/timestamp.rs`; `convert` is `Timestamp::try_from` on either ar
 -/
 set_option linter.unusedVariables false
 namespace RpmVerif.C20
-open RpmVerif.Timestamp RpmVerif.TimestampSpec
+open RpmVerif.Timestamp RpmVerif.TimestampSpec RpmVerif.Calendar
 
 /-! ### the instant representation: `secs` really is the floor, `≤` really is the time line -/
 
@@ -176,6 +176,137 @@ theorem now_total_iff (clock : Instant) :
     simp only [convert, hc, Conv.isPanic] at this
     cases this
 
+/-! ### the calendar: `daysFromCivil` is the day count of the proleptic Gregorian calendar -/
+
+/-- 1970-01-01 is day 0 -/
+theorem civil_epoch : daysFromCivil 1970 1 1 = 0 := by decide
+
+/-- a shifted year has 365 days, 366 when the civil year its February lies in is a leap year -/
+theorem yearPart_succ (Y : Int) : yearPart (Y + 1) = yearPart Y + (if isLeapYear (Y + 1) then 366 else 365) := by
+  unfold yearPart
+  by_cases hL : isLeapYear (Y + 1)
+  · rw [if_pos hL]; unfold isLeapYear at hL; omega
+  · rw [if_neg hL]; unfold isLeapYear at hL; omega
+
+/-- from every valid date to the next one (within the month, over the end of a month, over the end of February in leap and
+ordinary years, over the end of the year) the day number grows by exactly one. With `civil_epoch` this characterises
+`daysFromCivil`: it is the number of days since 1970-01-01, for all years (negative ones included). -/
+theorem civil_next_day (y : Int) (m d : Nat) (hm1 : 1 ≤ m) (hm2 : m ≤ 12) (hd1 : 1 ≤ d) (hd2 : d ≤ daysInMonth y m) :
+    daysFromCivil (nextDay y m d).1 (nextDay y m d).2.1 (nextDay y m d).2.2 = daysFromCivil y m d + 1 := by
+  unfold nextDay
+  by_cases h1 : d < daysInMonth y m
+  · rw [if_pos h1]; simp only [daysFromCivil]; omega
+  · rw [if_neg h1]
+    have hd : (d : Int) = daysInMonth y m := by omega
+    by_cases h2 : m < 12
+    · rw [if_pos h2]
+      simp only [daysFromCivil, hd]
+      by_cases hf : m = 2
+      · subst hf
+        have hy := yearPart_succ (y - 1)
+        have e : y - 1 + 1 = y := by omega
+        rw [e] at hy
+        simp only [shiftedYear, shiftedMonth, monthPart, daysInMonth, if_true]
+        simp only [show (2 : Nat) ≤ 2 from Nat.le_refl 2, show ¬ (2 + 1 ≤ 2) by omega, show ¬ (2 > 2) by omega,
+          show (2 + 1 > 2) by omega, if_true, if_false]
+        rw [hy]
+        split <;> simp <;> omega
+      · have hm : m = 1 ∨ m = 3 ∨ m = 4 ∨ m = 5 ∨ m = 6 ∨ m = 7 ∨ m = 8 ∨ m = 9 ∨ m = 10 ∨ m = 11 := by omega
+        rcases hm with rfl | rfl | rfl | rfl | rfl | rfl | rfl | rfl | rfl | rfl <;>
+          simp [shiftedYear, shiftedMonth, monthPart, daysInMonth] <;> omega
+    · rw [if_neg h2]
+      have hm : m = 12 := by omega
+      subst hm
+      simp [daysFromCivil, hd, shiftedYear, shiftedMonth, monthPart, daysInMonth]
+      omega
+
+/-- the day after a valid date is a valid date -/
+theorem nextDay_valid (y : Int) (m d : Nat) (hm1 : 1 ≤ m) (hm2 : m ≤ 12) (hd1 : 1 ≤ d) (hd2 : d ≤ daysInMonth y m) :
+    1 ≤ (nextDay y m d).2.1 ∧ (nextDay y m d).2.1 ≤ 12 ∧ 1 ≤ (nextDay y m d).2.2
+    ∧ (nextDay y m d).2.2 ≤ daysInMonth (nextDay y m d).1 (nextDay y m d).2.1 := by
+  have hpos : ∀ (y : Int) (m : Nat), 28 ≤ daysInMonth y m := by
+    intro y m; unfold daysInMonth; repeat' split
+    all_goals omega
+  unfold nextDay
+  by_cases h1 : d < daysInMonth y m
+  · rw [if_pos h1]; dsimp only; exact ⟨hm1, hm2, by omega, by omega⟩
+  · rw [if_neg h1]
+    by_cases h2 : m < 12
+    · rw [if_pos h2]; dsimp only; have := hpos y (m + 1); exact ⟨by omega, by omega, by omega, by omega⟩
+    · rw [if_neg h2]; dsimp only; have := hpos (y + 1) 1; exact ⟨by omega, by omega, by omega, by omega⟩
+
+/-! ### chrono's own representation: leap-second readings, calendar fields, zones (AUDIT2 a23) -/
+
+theorem fromChronoDT_unfold (d : ChronoDT) : fromChronoDT d =
+    if d.secs < 0 then .underflow
+    else match u32OfI64 d.secs with
+      | none => .overflow
+      | some n => .ok n := rfl
+
+/-- **Exactness on chrono's representation**, every stored second, every sub-second field up to 2·10⁹ − 1 (leap-second
+readings included), every offset: the result is the spec's expectation for the stored second. -/
+theorem ts_exact_chronoDT (d : ChronoDT) : fromChronoDT d = ofExpect (expect d.secs) := by
+  rw [fromChronoDT_unfold]
+  rcases expect_cases d.secs with ⟨h, e⟩ | ⟨h0, h1, e⟩ | ⟨h, e⟩ <;> rw [e]
+  · rw [if_pos h]; rfl
+  · rw [if_neg (by omega), u32OfI64_of_range h0 h1]; rfl
+  · rw [if_neg (by omega), u32OfI64_of_ge h]; rfl
+
+/-- on ordinary (non-leap) values this is the conversion of the `DateTime` / `Instant` model -/
+theorem fromChronoDT_eq_fromChrono (d : ChronoDT) (h : d.frac < 1000000000) :
+    fromChronoDT d = fromChrono (d.toDateTime h) := rfl
+
+/-- **Leap-second readings**: a reading inside the leap second that hangs on second `S` converts like second `S` itself
+(chrono's `timestamp()` does not count the leap second), whatever its sub-second part and zone: never a panic, never
+`S + 2` or `S − 1`. -/
+theorem ts_leap_reading (d : ChronoDT) (hl : d.isLeap = true) (t : Instant) (o : Int) (ht : t.secs = d.secs) :
+    fromChronoDT d = fromChrono ⟨t, o⟩ ∧ (fromChronoDT d).isPanic = false := by
+  rw [ts_exact_chronoDT, fromChrono_eq_spec]
+  simp only [Instant.floor, ht, true_and]
+  cases expect d.secs <;> rfl
+
+/-- the sub-second field and the offset of a stored value never matter -/
+theorem ts_chronoDT_frac_zone_irrelevant (a b : ChronoDT) (h : a.secs = b.secs) : fromChronoDT a = fromChronoDT b := by
+  rw [ts_exact_chronoDT, ts_exact_chronoDT, h]
+
+/-- **Order preservation** for chrono's own order of readings (leap readings included) -/
+theorem ts_monotone_chronoDT (a b : ChronoDT) (x y : Nat) (h : a.le b)
+    (ha : fromChronoDT a = .ok x) (hb : fromChronoDT b = .ok y) : x ≤ y := by
+  rw [ts_exact_chronoDT] at ha hb
+  have hle : a.secs ≤ b.secs := by
+    unfold ChronoDT.le at h; omega
+  rcases expect_cases a.secs with ⟨_, e⟩ | ⟨a0, a1, e⟩ | ⟨_, e⟩ <;> rw [e] at ha <;>
+    simp only [ofExpect, Conv.ok.injEq, reduceCtorEq] at ha
+  rcases expect_cases b.secs with ⟨_, e⟩ | ⟨b0, b1, e⟩ | ⟨_, e⟩ <;> rw [e] at hb <;>
+    simp only [ofExpect, Conv.ok.injEq, reduceCtorEq] at hb
+  omega
+
+/-- **Calendar fields in a zone**: a valid wall-clock reading `c` in a zone `offset` seconds east of UTC converts to the
+spec's expectation for `c.localSecs − offset`, the whole seconds from 1970-01-01T00:00:00Z to that instant. -/
+theorem ts_civil (c : Civil) (offset : Int) (hv : c.valid) :
+    fromChronoDT (ofCivil c offset hv.2.2.2.2.2.2.2.1) = ofExpect (expect (c.localSecs - offset)) :=
+  ts_exact_chronoDT _
+
+/-- **"in any time zone"**: two wall-clock readings, each in its own zone, that denote the same second convert alike —
+the zone enters through `localSecs − offset` only (12:00:00+02:00 and 10:00:00Z, 23:30 of one day at −03:30 and 03:00 of
+the next day in UTC, …). -/
+theorem ts_civil_zone_irrelevant (c₁ c₂ : Civil) (o₁ o₂ : Int) (h₁ : c₁.frac < 2000000000) (h₂ : c₂.frac < 2000000000)
+    (h : c₁.localSecs - o₁ = c₂.localSecs - o₂) :
+    fromChronoDT (ofCivil c₁ o₁ h₁) = fromChronoDT (ofCivil c₂ o₂ h₂) :=
+  ts_chronoDT_frac_zone_irrelevant _ _ h
+
+/-- one day later on the wall clock is 86 400 s later (valid dates; this is `civil_next_day` in seconds) -/
+theorem localSecs_next_day (c : Civil) (hv : c.valid) :
+    ({ c with year := (nextDay c.year c.month c.day).1, month := (nextDay c.year c.month c.day).2.1,
+              day := (nextDay c.year c.month c.day).2.2 } : Civil).localSecs = c.localSecs + 86400 := by
+  obtain ⟨m1, m2, d1, d2, _⟩ := hv
+  have := civil_next_day c.year c.month c.day m1 m2 d1 d2
+  simp only [Civil.localSecs, this]; omega
+
+/-- no conversion of a chrono value panics -/
+theorem ts_total_chronoDT (d : ChronoDT) : (fromChronoDT d).isPanic = false := by
+  rw [ts_exact_chronoDT]; cases expect d.secs <;> rfl
+
 /-! ### non-vacuity: each hypothesis is met by concrete, non-trivial instants -/
 -- inside the range, with a sub-second part: exact floor, both conversions, a +5:45 zone
 example : fromSystemTime ⟨1600000000, 999999999, by decide⟩ = .ok 1600000000 ∧
@@ -193,5 +324,27 @@ example : (Source.sys ⟨2147483647, 500000000, by decide⟩).instant ≤ (Sourc
 -- `now` does panic outside the range (so `now_total_iff` is not vacuous in either direction)
 example : (now ⟨-1, 0, by decide⟩).isPanic = true ∧ (now ⟨4294967296, 0, by decide⟩).isPanic = true ∧
     now ⟨1790000000, 5, by decide⟩ = .ok 1790000000 := by decide
+
+-- the calendar: leap day 2000-02-29, the day before the epoch, 2106-02-07 (the day 2^32 s falls on), a negative year
+example : daysFromCivil 2000 2 29 = 11016 ∧ daysFromCivil 1969 12 31 = -1 ∧ daysFromCivil 2106 2 7 = 49710
+    ∧ daysFromCivil (-1) 12 31 = -719529 ∧ nextDay 2100 2 28 = (2100, 3, 1) ∧ nextDay 2000 2 28 = (2000, 2, 29)
+    ∧ nextDay 1999 12 31 = (2000, 1, 1) := by decide
+-- 2106-02-07T06:28:15Z is the last convertible second, :16 overflows; the same instant on a +05:45 wall clock
+example : (⟨2106, 2, 7, 6, 28, 15, 999999999⟩ : Civil).valid ∧ (⟨2106, 2, 7, 6, 28, 15, 999999999⟩ : Civil).localSecs = 4294967295
+    ∧ fromChronoDT (ofCivil ⟨2106, 2, 7, 6, 28, 15, 999999999⟩ 0 (by decide)) = .ok 4294967295
+    ∧ fromChronoDT (ofCivil ⟨2106, 2, 7, 6, 28, 16, 0⟩ 0 (by decide)) = .overflow
+    ∧ fromChronoDT (ofCivil ⟨2106, 2, 7, 12, 13, 15, 0⟩ 20700 (by decide)) = .ok 4294967295 := by decide
+-- 1969-12-31T23:59:59.999999999Z underflows; so does 1970-01-01T02:00:00+03:00; 1969-12-31T20:30:00-03:30 is second 0
+example : fromChronoDT (ofCivil ⟨1969, 12, 31, 23, 59, 59, 999999999⟩ 0 (by decide)) = .underflow
+    ∧ fromChronoDT (ofCivil ⟨1970, 1, 1, 2, 0, 0, 0⟩ 10800 (by decide)) = .underflow
+    ∧ fromChronoDT (ofCivil ⟨1969, 12, 31, 20, 30, 0, 0⟩ (-12600) (by decide)) = .ok 0 := by decide
+-- premise of `ts_civil_zone_irrelevant`: 12:00:00+02:00 and 10:00:00Z on 2024-05-21
+example : (⟨2024, 5, 21, 12, 0, 0, 0⟩ : Civil).localSecs - 7200 = (⟨2024, 5, 21, 10, 0, 0, 0⟩ : Civil).localSecs - 0 := by decide
+-- a leap-second reading: 2016-12-31T23:59:60.5Z is stored on second 1483228799 with frac 1.5·10⁹ and converts to that second;
+-- 1969-12-31T23:59:60.0Z hangs on second −1: Underflow, although the next ordinary second is 0
+example : (ofCivil ⟨2016, 12, 31, 23, 59, 59, 1500000000⟩ 0 (by decide)).isLeap = true
+    ∧ fromChronoDT (ofCivil ⟨2016, 12, 31, 23, 59, 59, 1500000000⟩ 0 (by decide)) = .ok 1483228799
+    ∧ fromChronoDT (ofCivil ⟨1969, 12, 31, 23, 59, 59, 1000000000⟩ 0 (by decide)) = .underflow
+    ∧ (⟨2016, 12, 31, 23, 59, 58, 1500000000⟩ : Civil).valid = False := by decide
 
 end RpmVerif.C20
